@@ -223,6 +223,11 @@ def fresh_session(chk: Check, repo: Repo) -> None:
     kp = assigns(lambda a: isinstance(a.value, ast.Call) and call_name(a.value) == "generate_ecdh_key_pair" and any(ast.unparse(t) == "self._private_key" for tt in (a.targets if isinstance(a, ast.Assign) else [a.target]) for t in (tt.elts if isinstance(tt, ast.Tuple) else [tt])))
     ok_k = len(kp) == 1 and cfg.dominates(kp[0].id, req[0].id)
     chk.ob("connect-generates-a-fresh-key-pair", con.site(kp[0].ast if kp else None), ok_k, "connect(): `self._private_key, self.public_key = generate_ecdh_key_pair()` is executed on every path before the SessionRequest" if ok_k else "connect(): the ECDH key pair is not regenerated on every path before the SessionRequest — a reconnect re-uses the key, the recorded SessionResponse of an earlier session verifies again and yields the same session key, so that session's wrapped frames are accepted as fresh", key="fresh|keypair")
+    # whatever an earlier attempt left behind (initialized flag, session key, keepalive task) is gone before the plain
+    # handshake starts: stop() — or at least `initialized = False` — on every path to the SessionRequest
+    clears = [n.id for n in cfg.nodes if n.ast is not None and n.kind == "stmt" and (any(call_name(c) == "self.stop" for c in calls(n.ast)) or (isinstance(n.ast, ast.Assign) and ast.unparse(n.ast.targets[0]) == "self.initialized" and isinstance(n.ast.value, ast.Constant) and n.ast.value.value is False))]
+    ok_c = any(cfg.dominates(c, req[0].id) for c in clears)
+    chk.ob("connect-starts-from-a-stopped-session", con.site(), ok_c, "connect() tears down what an earlier attempt left (stop() / initialized = False) before the SessionRequest" if ok_c else "connect() does not clear `initialized` before the handshake: after an attempt that failed past the handshake (authentication rejected, caller-side timeout) the next SessionRequest is sent WRAPPED with sequence number 0 under the previous session key (nonce reuse), old wrappers are accepted again and the plain SessionResponse is discarded", key="fresh|stopped")
     pub = [k for c in calls(req[0].ast) if method_name(c) == "Session" for k in c.keywords if k.arg == "ecdh_client_public_key"]
     chk.ob("connect-generates-a-fresh-key-pair", con.site(req[0].ast), len(pub) == 1 and ast.unparse(pub[0].value) == "self.public_key", "the SessionRequest carries the public key generated in this connect()", key="fresh|pubkey-sent")
     for attr, val in (("_sequence_number", 0), ("_sequence_number_received", -1)):
